@@ -122,6 +122,12 @@ fn run_impl(c: &Case, extra: &[Vec<f64>]) -> Result<Option<(Tree, Vec<f64>, Vec<
 // ------------------------------------------------------------------------------------------
 // the oracle (from the property text)
 // ------------------------------------------------------------------------------------------
+thread_local! {
+    static STATS: std::cell::RefCell<std::collections::BTreeMap<&'static str, u64>> = std::cell::RefCell::new(std::collections::BTreeMap::new());
+}
+fn stat(k: &'static str, n: u64) {
+    STATS.with(|s| *s.borrow_mut().entry(k).or_insert(0) += n);
+}
 fn is_leaf(nd: &PNode) -> bool {
     nd.tc.is_none() && nd.fc.is_none()
 }
@@ -264,8 +270,7 @@ impl<'a> Scorer<'a> {
 }
 
 /// Evaluate every clause of the property on one training set; returns the violated clauses.
-fn eval_case(c: &Case, rng_extra: u64, deep: bool) -> Vec<(String, String)> {
-    let mut fails: Vec<(String, String)> = vec![];
+fn gen_extra(c: &Case, rng_extra: u64) -> Vec<Vec<f64>> {
     let n = c.x.len();
     let p = c.x[0].len();
     // extra rows: perturbed training rows and fresh ones
@@ -281,6 +286,13 @@ fn eval_case(c: &Case, rng_extra: u64, deep: bool) -> Vec<(String, String)> {
         };
         extra.push(row);
     }
+    extra
+}
+fn eval_case(c: &Case, extra_in: &[Vec<f64>], rng_extra: u64, deep: bool) -> Vec<(String, String)> {
+    let mut fails: Vec<(String, String)> = vec![];
+    let n = c.x.len();
+    let p = c.x[0].len();
+    let extra: Vec<Vec<f64>> = extra_in.iter().filter(|r| r.len() == p).cloned().collect();
     let (t, pt, pe) = match run_impl(c, &extra) {
         Err(m) => return vec![("no_panic".into(), format!("fit/predict panicked: {}", m))],
         Ok(None) => return vec![("fit_ok".into(), "fit returned Err on a valid training set".into())],
@@ -359,11 +371,24 @@ fn eval_case(c: &Case, rng_extra: u64, deep: bool) -> Vec<(String, String)> {
         }
     }
     let ymax = c.y.iter().fold(0.0f64, |m, v| m.max(v.abs()));
+    stat("trees", 1);
+    stat("nodes", len as u64);
+    stat("predictions_routed", (n + extra.len()) as u64);
+    if maxd >= 1 && c.md.is_some() {
+        stat("depth_limited_trees_with_splits", 1);
+        if maxd == c.md.unwrap() as usize {
+            stat("depth_limit_attained", 1);
+        }
+    }
     for k in 0..len {
         if !is_leaf(&t.nodes[k]) {
             continue;
         }
+        stat("leaves_checked", 1);
         let rows = &rows_at[k];
+        if k != 0 && rows.len() == c.msl && c.msl >= 2 {
+            stat("leaves_at_exactly_min_samples_leaf", 1);
+        }
         if !(k == 0) && rows.len() < c.msl {
             fails.push(("leaf_size".into(), format!("leaf {} holds {} training rows, min_samples_leaf = {}", k, rows.len(), c.msl)));
         }
@@ -397,6 +422,7 @@ fn eval_case(c: &Case, rng_extra: u64, deep: bool) -> Vec<(String, String)> {
             let rows = &rows_at[k];
             let nd = &t.nodes[k];
             if !is_leaf(nd) {
+                stat(if c.cls { "internal_nodes_optimality_checked_cls" } else { "internal_nodes_optimality_checked_reg" }, 1);
                 let (best, ch, scale) = sc.best_and_chosen(rows, Some((nd.feat, nd.sv.unwrap())));
                 let (g, nl, nr) = ch.unwrap();
                 let msl = c.msl;
@@ -409,6 +435,7 @@ fn eval_case(c: &Case, rng_extra: u64, deep: bool) -> Vec<(String, String)> {
                 }
             } else if c.md.is_none() && rows.len() > c.mss && rows.len() >= 1 {
                 let pure = c.cls && sc.counts(rows).iter().filter(|v| **v > 0).count() <= 1;
+                stat("leaves_completeness_checked", 1);
                 if !pure {
                     let (best, _, _) = sc.best_and_chosen(rows, None);
                     if best.is_some() {
@@ -420,6 +447,7 @@ fn eval_case(c: &Case, rng_extra: u64, deep: bool) -> Vec<(String, String)> {
     }
     // --- exact reproduction (classifier, limits disabled, distinct values) ---
     if c.cls && distinct && c.msl == 1 && c.mss <= 1 && c.md.is_none() {
+        stat("exact_reproduction_cases", 1);
         for i in 0..n {
             if !same(pt[i], c.y[i]) {
                 fails.push(("exact_reproduction".into(), format!("row {} has label {} but is predicted {}", i, c.y[i], pt[i])));
@@ -429,6 +457,7 @@ fn eval_case(c: &Case, rng_extra: u64, deep: bool) -> Vec<(String, String)> {
     }
     // --- determinism and scale invariance ---
     if deep {
+        stat("determinism_and_scaling_cases", 1);
         match run_impl(c, &[]) {
             Ok(Some((t2, _, _))) if t2.text == t.text => {}
             _ => fails.push(("deterministic".into(), "a second fit on the same data gives a different tree".into())),
@@ -460,9 +489,10 @@ fn eval_case(c: &Case, rng_extra: u64, deep: bool) -> Vec<(String, String)> {
 }
 
 /// greedy shrink: drop rows / features while the same clause keeps failing
-fn shrink(c: &Case, oracle: &str, key: u64) -> Case {
+fn shrink(c: &Case, extra: &[Vec<f64>], oracle: &str, key: u64) -> (Case, Vec<Vec<f64>>) {
     let mut cur = c.clone();
-    let still = |cc: &Case| -> bool {
+    let mut cur_extra: Vec<Vec<f64>> = extra.to_vec();
+    let still = |cc: &Case, ex: &[Vec<f64>]| -> bool {
         if cc.x.len() < 2 || cc.x[0].is_empty() {
             return false;
         }
@@ -474,7 +504,7 @@ fn shrink(c: &Case, oracle: &str, key: u64) -> Case {
                 return false;
             }
         }
-        eval_case(cc, key, true).iter().any(|(o, _)| o == oracle)
+        eval_case(cc, ex, key, true).iter().any(|(o, _)| o == oracle)
     };
     let mut budget = 400;
     let mut progress = true;
@@ -486,7 +516,7 @@ fn shrink(c: &Case, oracle: &str, key: u64) -> Case {
             t.x.remove(i);
             t.y.remove(i);
             budget -= 1;
-            if still(&t) {
+            if still(&t, &cur_extra) {
                 cur = t;
                 progress = true;
             } else {
@@ -499,16 +529,21 @@ fn shrink(c: &Case, oracle: &str, key: u64) -> Case {
             for r in t.x.iter_mut() {
                 r.remove(j);
             }
+            let mut te = cur_extra.clone();
+            for r in te.iter_mut() {
+                r.remove(j);
+            }
             budget -= 1;
-            if still(&t) {
+            if still(&t, &te) {
                 cur = t;
+                cur_extra = te;
                 progress = true;
             } else {
                 j += 1;
             }
         }
     }
-    cur
+    (cur, cur_extra)
 }
 
 fn case_key(c: &Case) -> u64 {
@@ -529,12 +564,14 @@ fn check_case(out: &mut Out, c: &Case, family: &str, deep: bool) {
     if c.cls && c.msl == 1 && distinct_within_features(&c.x) {
         out.count("search:classifier-greedy-claimed");
     }
-    let fails = eval_case(c, key, deep);
+    let extra = gen_extra(c, key);
+    let fails = eval_case(c, &extra, key, deep);
     if let Some((oracle, what)) = fails.first() {
-        let small = shrink(c, oracle, key);
-        let what2 = eval_case(&small, key, true).into_iter().find(|(o, _)| o == oracle).map(|(_, w)| w).unwrap_or(what.clone());
+        let (small, small_extra) = shrink(c, &extra, oracle, key);
+        let what2 = eval_case(&small, &small_extra, key, true).into_iter().find(|(o, _)| o == oracle).map(|(_, w)| w).unwrap_or(what.clone());
         let mut inp = small.to_json();
         inp["extra_key"] = json!(key.to_string());
+        inp["extra_rows"] = json!(small_extra);
         out.fail(oracle, &what2, inp);
     }
 }
@@ -667,6 +704,48 @@ fn corr_fit(out: &mut Out, c: &Case) {
         }
     }
 }
+/// fit_weak_learner through the cfg hook: bootstrap-like sample counts, mtry <= p, seeded shuffles;
+/// the features tried at each node are read back from the recorder and handed to the model
+fn corr_fit_weighted(out: &mut Out, c: &Case, rng: &mut Rng) {
+    let n = c.x.len();
+    let p = c.x[0].len();
+    let mut samples: Vec<usize> = (0..n).map(|_| [0usize, 0, 1, 1, 1, 2, 3][rng.below(7)]).collect();
+    samples[0] = samples[0].max(1);
+    samples[n - 1] = samples[n - 1].max(1);
+    let mtry = rng.usize_in(1, p);
+    let seed = rng.next_u64() % 1000;
+    let res = guard(|| {
+        let xm = dense(&c.x);
+        if c.cls {
+            let params = DecisionTreeClassifierParameters { criterion: criterion(c.crit), max_depth: c.md, min_samples_leaf: c.msl, min_samples_split: c.mss };
+            let r = DecisionTreeClassifier::<f64>::verif_fit_weak_learner(&xm, &c.y, samples.clone(), mtry, params, seed);
+            let vars = smartcore::tree::decision_tree_classifier::VERIF_TREE_VARS.with(|v| v.borrow().clone());
+            (r.ok().map(|t| parse_tree(&serde_json::to_value(&t).unwrap(), true)), vars)
+        } else {
+            let params = DecisionTreeRegressorParameters { max_depth: c.md, min_samples_leaf: c.msl, min_samples_split: c.mss };
+            let r = DecisionTreeRegressor::<f64>::verif_fit_weak_learner(&xm, &c.y, samples.clone(), mtry, params, seed);
+            let vars = smartcore::tree::decision_tree_regressor::VERIF_TREE_VARS.with(|v| v.borrow().clone());
+            (r.ok().map(|t| parse_tree(&serde_json::to_value(&t).unwrap(), false)), vars)
+        }
+    });
+    if let Ok((tree, vars)) = res {
+        let mut input = c.to_json();
+        input["entry"] = json!("weighted");
+        input["samples"] = json!(samples);
+        input["mtry"] = json!(mtry);
+        input["seed"] = json!(seed);
+        let md = coq_option(c.md.map(|d| coq_n(d as usize)));
+        let cvars = coq_list(vars.iter().map(|(id, vs)| format!("({}, {})", coq_n(*id), coq_list_n(vs))));
+        if c.cls {
+            let exp = coq_option(tree.map(|t| format!("({}, {}, {})", coq_list_f64(&t.classes), coq_cnodes(&t), coq_n(t.depth))));
+            let tab = if c.crit == 1 { log2_table(samples.iter().sum::<usize>()) } else { "nil".to_string() };
+            out.corr("cls_fit_weighted_mtry", format!("corr_cls_fit_w {} {} {} {} {} {} {} {} {} {}", coq_n(c.crit), coq_rows_f64(&c.x), coq_list_f64(&c.y), coq_list_n(&samples), cvars, md, coq_n(c.msl), coq_n(c.mss), tab, exp), input);
+        } else {
+            let exp = coq_option(tree.map(|t| format!("({}, {})", coq_rnodes(&t), coq_n(t.depth))));
+            out.corr("reg_fit_weighted_mtry", format!("corr_reg_fit_w {} {} {} {} {} {} {} {}", coq_rows_f64(&c.x), coq_list_f64(&c.y), coq_list_n(&samples), cvars, md, coq_n(c.msl), coq_n(c.mss), exp), input);
+        }
+    }
+}
 fn corr_predict(out: &mut Out, c: &Case, rng: &mut Rng) {
     let n = c.x.len();
     let p = c.x[0].len();
@@ -702,7 +781,8 @@ fn replay(path: &str) -> i32 {
         "tree" => {
             let c = Case::from_json(&inp);
             let key = inp["extra_key"].as_str().and_then(|s| s.parse::<u64>().ok()).unwrap_or_else(|| case_key(&c));
-            eval_case(&c, key, true)
+            let extra = if inp.get("extra_rows").is_some() { rows_from_json(&inp["extra_rows"]) } else { gen_extra(&c, key) };
+            eval_case(&c, &extra, key, true)
         }
         "argsort" => {
             let col = f64s_from_json(&inp["col"]);
@@ -781,7 +861,7 @@ fn main() {
         corr_argsort(&mut out, &col);
     }
     // ---- correspondence: whole fitted trees, field by field ----
-    let ncorr = if a.thorough { 700 } else { 200 };
+    let ncorr = if a.thorough { 2000 } else { 700 };
     for i in 0..ncorr {
         let cls = i % 2 == 1;
         let (mut c, _) = gen_case(&mut rng, if i % 5 == 0 { 60 } else { 32 }, Some(cls));
@@ -794,14 +874,22 @@ fn main() {
         }
         corr_fit(&mut out, &c);
     }
+    // ---- correspondence: fit_weak_learner with sample counts and mtry (as the random forest calls it) ----
+    for i in 0..(if a.thorough { 600 } else { 200 }) {
+        let (mut c, _) = gen_case(&mut rng, 28, Some(i % 2 == 1));
+        if c.cls && c.crit == 1 && c.x.len() > 14 {
+            c.crit = 0;
+        }
+        corr_fit_weighted(&mut out, &c, &mut rng);
+    }
     // ---- correspondence: the model's predict on the implementation's own node arrays ----
-    for _ in 0..(if a.thorough { 300 } else { 60 }) {
+    for _ in 0..(if a.thorough { 400 } else { 100 }) {
         let (c, _) = gen_case(&mut rng, 150, None);
         corr_predict(&mut out, &c, &mut rng);
     }
 
     // ---- search ----
-    let nsearch = if a.thorough { 60000 } else { 5000 };
+    let nsearch = if a.thorough { 250000 } else { 50000 };
     for i in 0..nsearch {
         let (c, fam) = gen_case(&mut rng, 150, None);
         check_case(&mut out, &c, fam, i % 4 == 0);
@@ -809,5 +897,6 @@ fn main() {
             out.sample(json!({"cls": c.cls, "crit": c.crit, "n": c.x.len(), "p": c.x[0].len(), "md": c.md, "msl": c.msl, "mss": c.mss, "x_head": c.x[..2.min(c.x.len())].to_vec(), "y_head": c.y[..2.min(c.y.len())].to_vec()}));
         }
     }
+    STATS.with(|s| out.set("oracle_counts", json!(*s.borrow())));
     out.finish(&a.out);
 }
